@@ -369,6 +369,14 @@ func genCV(cfg *config, r *rng, i int, s *sink) string {
 	if r.chance(1, 6) {
 		base = int64(r.rangeInt(0, 2000000000))
 	}
+	if r.chance(1, 10) {
+		// a log recorded before the epoch (negative UTC times are times like any other), some of
+		// them shortly before a UTC midnight
+		base = -int64(r.rangeInt(100000, 30000000))
+		if r.chance(1, 2) {
+			base = base - (base % 86400) - int64(1+r.intn(20)) // ... -00:00:20 .. -00:00:01 before a midnight
+		}
+	}
 	text, oracle := cvLog(r, s, maxLaps, maxRows, withOBD, base)
 	sd := "-"
 	op := "conv"
